@@ -199,11 +199,12 @@ def prelude_for(module_index: int) -> str:
     return (PRELUDE, PRELUDE_FROM, PRELUDE_LOCAL)[module_index % 3]
 
 
-def modules(bodies: list[str], per_module: int = 25):
+def modules(bodies: list[str], per_module: int = 25, offset: int = 0):
     """Group bodies into module sources with the prelude; one function per body."""
     srcs = []
     cur = []
-    for ix, b in enumerate(bodies):
+    for ix0, b in enumerate(bodies):
+        ix = ix0 + offset
         is_async = "await_marker" in b or "async_marker" in b or "async for" in b
         b2 = b.replace("(await_marker, ", "(await x.aw, ").replace("async_marker = 1\n", "await x.aw2\n").replace("async_marker = ", "t_async = ")
         src = fn(f"fn_{ix}", b2, is_async=is_async)
